@@ -5,6 +5,7 @@ import (
 	"encoding/hex"
 	"fmt"
 	"math/big"
+	"os"
 	"strconv"
 	"strings"
 	"sync"
@@ -141,7 +142,25 @@ func prng(seed *big.Int, j int) fr.Element {
 }
 
 // polynomial / vector spec, see ocaml/driver.ml:poly_of_spec
+// In concurrent mode (VERIF_CONC) vectors with the same specification are ONE shared slice:
+// several goroutines then pass the same caller-owned, read-only input to the library at the
+// same time (any write to it by the library is a data race the detector reports).
+var sharedPolys sync.Map
+var shareInputs = os.Getenv("VERIF_CONC") != ""
+
 func polyOfSpec(n int, s string) []fr.Element {
+	if shareInputs {
+		key := fmt.Sprintf("%d|%s", n, s)
+		if v, ok := sharedPolys.Load(key); ok {
+			return v.([]fr.Element)
+		}
+		v, _ := sharedPolys.LoadOrStore(key, polyOfSpecFresh(n, s))
+		return v.([]fr.Element)
+	}
+	return polyOfSpecFresh(n, s)
+}
+
+func polyOfSpecFresh(n int, s string) []fr.Element {
 	parts := strings.Split(s, ":")
 	out := make([]fr.Element, n)
 	switch parts[0] {
